@@ -138,6 +138,16 @@ void World::exec_op(const Op &op) {
 		while (!q.empty()) q.pop();
 		return;
 	}
+	if (k == "spurious") {
+		// a readiness report without anything behind it: a connection, a listening socket or an armed timer
+		KFd *t = nullptr;
+		std::string what = op.a.gets("what", "conn");
+		if (what == "conn" && cl && cl->accepted && !cl->daemon_closed) t = g_kernel.get(cl->fd);
+		else if (what == "listen") t = find_listener(op.a.gets("tr", "raw"), "127.0.0.1");
+		else if (what == "timer") { for (auto &kk : g_kernel.fds) if (kk.open && kk.kind == FD_TIMER && kk.in_epoll) { t = &kk; break; } }
+		if (t && t->open && t->in_epoll) { t->spurious_in = true; g_kernel.mark_pending(*t); probe("fault:spurious_readiness:" + what); }
+		return;
+	}
 	if (k == "closeeintr") { g_kernel.close_eintr += (int)op.a.geti("n", 1); probe("fault:close_interrupted"); return; }
 	if (k == "timerfail") { g_kernel.timerfd_create_errs.push_back((int)op.a.geti("errno", EMFILE)); return; }
 	if (k == "epolladdfail") { for (int i = 0; i < (int)op.a.geti("skip", 0); i++) g_kernel.epoll_add_errs.push_back(0); g_kernel.epoll_add_errs.push_back((int)op.a.geti("errno", ENOSPC)); return; }
